@@ -14,7 +14,7 @@ for f in ('patch.diff', 'demo.rs', 'meta.json'):
     if os.path.exists(os.path.join(src, f)):
         shutil.copy(os.path.join(src, f), out)
 meta = json.load(open(out + '/meta.json'))
-env = dict(os.environ, MUT_DIR='/tmp/mutb')
+env = dict(os.environ, MUT_DIR=os.environ.get('MUT_DIR', '/tmp/mutb'))
 r = subprocess.run(['/verif/tools/mut.py', '--patch', out + '/patch.diff', '--'] + ids, capture_output=True, text=True, env=env)
 alarms = {}
 for i in ids:
